@@ -391,3 +391,53 @@ def ensure_repo_on_path():
         sys.path.insert(0, REPO)
     # never write bytecode into the repository under test
     sys.dont_write_bytecode = True
+
+
+# ---------------------------------------------------------------------------
+# tables exported from the specification
+# ---------------------------------------------------------------------------
+_TABLES = None
+
+
+def spec_tables():
+    """The specification's tables as Python data, exported by TLC
+    (spec/ExportTables.tla).  Regenerated when any .tla file is newer."""
+    global _TABLES
+    if _TABLES is not None:
+        return _TABLES
+    build = os.path.join(VERIF, "build")
+    os.makedirs(build, exist_ok=True)
+    out = os.path.join(build, "tables.json")
+    newest = max(os.path.getmtime(os.path.join(SPEC, f)) for f in os.listdir(SPEC) if f.endswith(".tla"))
+    if not os.path.exists(out) or os.path.getmtime(out) < newest:
+        tmp = out + ".%d.tmp" % os.getpid()
+        with Scratch("export") as sc:
+            r = run_tlc("ExportTables", "ExportTables.cfg", sc, env={"EXPORT_TO": tmp}, workers=1, timeout=300)
+        if not os.path.exists(tmp):
+            raise MachineryError("table export failed:\n" + r.out[-3000:])
+        os.replace(tmp, out)
+    with open(out) as fh:
+        _TABLES = json.load(fh)
+    return _TABLES
+
+
+PART_OF_MODULE = {
+    "dali.gear.general": "102", "dali.gear.emergency": "202", "dali.gear.incandescent": "205",
+    "dali.gear.converter": "206", "dali.gear.led": "207", "dali.gear.colour": "209",
+    "dali.device.general": "103", "dali.device.pushbutton": "301", "dali.device.occupancy": "303",
+    "dali.device.light": "304",
+}
+
+
+def import_all_commands():
+    """Import every command module of the library (the README's list)."""
+    ensure_repo_on_path()
+    import importlib
+    for m in PART_OF_MODULE:
+        importlib.import_module(m)
+    from dali.command import Command
+    return Command
+
+
+def qname(cls):
+    return "%s.%s" % (PART_OF_MODULE.get(cls.__module__, cls.__module__), cls.__name__)
